@@ -307,7 +307,7 @@ def step (st : St) (toks : List String) : St × String :=
     | "range" => match pRange rest with
       | some (r, []) =>
         if !rangeAccepted r then (st, "err other") else
-        match st.get (inst (ReadPath.path { kind := .range, linearizable := lin == "1" })) with
+        match st.get (inst (ReadPath.path { kind := .range, linearizable := lin == "1", range := some r })) with
         | some db => match lookup db r with
           | .ok resp => (st, "ok " ++ rrStr resp)
           | .error e => (st, errStr e)
@@ -316,7 +316,7 @@ def step (st : St) (toks : List String) : St × String :=
     | "iter" => match pRange rest with
       | some (r, []) =>
         if !rangeAccepted r then (st, "err other") else
-        match st.get (inst (ReadPath.path { kind := .iterate, linearizable := lin == "1" })) with
+        match st.get (inst (ReadPath.path { kind := .iterate, linearizable := lin == "1", range := some r })) with
         | some db => match iteratorLookup db r with
           | .ok chunks => (st, chunksStr chunks)
           | .error e => (st, errStr e)
